@@ -18,10 +18,10 @@ import (
 	"hash/fnv"
 	"math"
 	"math/rand"
+	"net"
 	"os"
 	"path/filepath"
 	"runtime"
-	"runtime/debug"
 	"sort"
 	"strconv"
 	"strings"
@@ -381,7 +381,7 @@ func (s *sut) call(a act) (interface{}, bool) {
 // ---------------------------------------------------------------- fake redis
 // Implements exactly the commands ttlrds.go issues, with redis' semantics over the virtual
 // clock in milliseconds, and go-redis' formatting of durations (commands.go: usePrecise,
-// formatMs, formatSec).  Any other command hits the nil embedded interface and panics.
+// formatMs, formatSec).  Any other command is answered with "ERR unknown command" (newFake).
 type fentry struct {
 	val string
 	exp int64 // absolute ms; 0 = no expiry
@@ -452,7 +452,55 @@ func (f *fakeRedis) gate(ctx context.Context) {
 	f.mu.Unlock()
 }
 
-func newFake() *fakeRedis { return &fakeRedis{data: map[string]fentry{}} }
+// newFake: the commands written below have the server's semantics.  Every OTHER command of
+// redis.Cmdable reaches the embedded client, whose hook answers it the way a server that does not
+// know the command does (an error reply, nothing executed, no connection is ever dialled); the
+// cache turns that into whatever it turns a server error into, and the spec judges the reply.
+func newFake() *fakeRedis {
+	f := &fakeRedis{data: map[string]fentry{}}
+	cl := redis.NewClient(&redis.Options{Addr: "fake:0", Dialer: func(context.Context, string, string) (net.Conn, error) {
+		return nil, errors.New("fake redis: no network")
+	}})
+	cl.AddHook(unknownHook{f})
+	f.Cmdable = cl
+	return f
+}
+
+type unknownHook struct{ f *fakeRedis }
+
+func (h unknownHook) DialHook(next redis.DialHook) redis.DialHook { return next }
+
+func (h unknownHook) ProcessHook(redis.ProcessHook) redis.ProcessHook {
+	return func(ctx context.Context, cmd redis.Cmder) error {
+		h.f.gate(ctx)
+		h.f.mu.Lock()
+		defer h.f.mu.Unlock()
+		err := h.f.refuse(ctx, cmd.Name())
+		if err == nil {
+			err = fmt.Errorf("ERR unknown command '%s'", cmd.Name())
+			h.f.logf("%s -> %v", cmd.Name(), err)
+		}
+		cmd.SetErr(err)
+		return err
+	}
+}
+
+func (h unknownHook) ProcessPipelineHook(redis.ProcessPipelineHook) redis.ProcessPipelineHook {
+	return func(ctx context.Context, cmds []redis.Cmder) error {
+		h.f.gate(ctx)
+		h.f.mu.Lock()
+		defer h.f.mu.Unlock()
+		err := h.f.refuse(ctx, "pipeline")
+		if err == nil {
+			err = errors.New("ERR unknown command 'multi/pipeline'")
+			h.f.logf("pipeline of %d -> %v", len(cmds), err)
+		}
+		for _, c := range cmds {
+			c.SetErr(err)
+		}
+		return err
+	}
+}
 
 func (f *fakeRedis) nowMs() int64 { return nowSec() * 1000 }
 
@@ -603,28 +651,6 @@ func (f *fakeRedis) GetDel(ctx context.Context, key string) *redis.StringCmd {
 	return redis.NewStringResult(e.val, nil)
 }
 
-func (f *fakeRedis) Expire(ctx context.Context, key string, d time.Duration) *redis.BoolCmd {
-	f.gate(ctx)
-	f.mu.Lock()
-	defer f.mu.Unlock()
-	if err := f.refuse(ctx, "expire"); err != nil {
-		return redis.NewBoolResult(false, err)
-	}
-	s := formatSec(d)
-	f.logf("expire %s %d (dur=%dns)", short(key), s, int64(d))
-	e, ok := f.live(key)
-	if !ok {
-		return redis.NewBoolResult(false, nil)
-	}
-	if s <= 0 {
-		delete(f.data, key)
-		return redis.NewBoolResult(true, nil)
-	}
-	e.exp = f.nowMs() + s*1000
-	f.data[key] = e
-	return redis.NewBoolResult(true, nil)
-}
-
 func (f *fakeRedis) Del(ctx context.Context, keys ...string) *redis.IntCmd {
 	f.gate(ctx)
 	f.mu.Lock()
@@ -641,6 +667,231 @@ func (f *fakeRedis) Del(ctx context.Context, keys ...string) *redis.IntCmd {
 		}
 	}
 	return redis.NewIntResult(n, nil)
+}
+
+// ---- the EXPIRE family.  at = absolute expiry in ms (<= now deletes the key); flag "" | NX | XX |
+// GT | LT with the server's rules (a key without expiry counts as infinite for GT / LT).
+func (f *fakeRedis) expire(ctx context.Context, what, key string, at int64, flag string) *redis.BoolCmd {
+	f.gate(ctx)
+	f.mu.Lock()
+	defer f.mu.Unlock()
+	if err := f.refuse(ctx, what); err != nil {
+		return redis.NewBoolResult(false, err)
+	}
+	f.logf("%s %s at=%+dms %s", what, short(key), at-f.nowMs(), flag)
+	e, ok := f.live(key)
+	if !ok {
+		return redis.NewBoolResult(false, nil)
+	}
+	switch flag {
+	case "NX":
+		ok = e.exp == 0
+	case "XX":
+		ok = e.exp != 0
+	case "GT":
+		ok = e.exp != 0 && at > e.exp
+	case "LT":
+		ok = e.exp == 0 || at < e.exp
+	}
+	if !ok {
+		return redis.NewBoolResult(false, nil)
+	}
+	if at <= f.nowMs() {
+		delete(f.data, key)
+		return redis.NewBoolResult(true, nil)
+	}
+	e.exp = at
+	f.data[key] = e
+	return redis.NewBoolResult(true, nil)
+}
+
+func (f *fakeRedis) inSec(d time.Duration) int64 { return f.nowMs() + formatSec(d)*1000 }
+
+func (f *fakeRedis) Expire(ctx context.Context, key string, d time.Duration) *redis.BoolCmd {
+	return f.expire(ctx, fmt.Sprintf("expire(dur=%dns)", int64(d)), key, f.inSec(d), "")
+}
+func (f *fakeRedis) ExpireNX(ctx context.Context, key string, d time.Duration) *redis.BoolCmd {
+	return f.expire(ctx, fmt.Sprintf("expire(dur=%dns)", int64(d)), key, f.inSec(d), "NX")
+}
+func (f *fakeRedis) ExpireXX(ctx context.Context, key string, d time.Duration) *redis.BoolCmd {
+	return f.expire(ctx, fmt.Sprintf("expire(dur=%dns)", int64(d)), key, f.inSec(d), "XX")
+}
+func (f *fakeRedis) ExpireGT(ctx context.Context, key string, d time.Duration) *redis.BoolCmd {
+	return f.expire(ctx, fmt.Sprintf("expire(dur=%dns)", int64(d)), key, f.inSec(d), "GT")
+}
+func (f *fakeRedis) ExpireLT(ctx context.Context, key string, d time.Duration) *redis.BoolCmd {
+	return f.expire(ctx, fmt.Sprintf("expire(dur=%dns)", int64(d)), key, f.inSec(d), "LT")
+}
+func (f *fakeRedis) PExpire(ctx context.Context, key string, d time.Duration) *redis.BoolCmd {
+	return f.expire(ctx, fmt.Sprintf("pexpire(dur=%dns)", int64(d)), key, f.nowMs()+formatMs(d), "")
+}
+
+// absolute times are read against the virtual clock (unix seconds)
+func (f *fakeRedis) ExpireAt(ctx context.Context, key string, tm time.Time) *redis.BoolCmd {
+	return f.expire(ctx, "expireat", key, tm.Unix()*1000, "")
+}
+func (f *fakeRedis) PExpireAt(ctx context.Context, key string, tm time.Time) *redis.BoolCmd {
+	return f.expire(ctx, "pexpireat", key, tm.UnixNano()/int64(time.Millisecond), "")
+}
+
+func (f *fakeRedis) expireTime(ctx context.Context, what, key string, unit time.Duration) *redis.DurationCmd {
+	f.gate(ctx)
+	f.mu.Lock()
+	defer f.mu.Unlock()
+	if err := f.refuse(ctx, what); err != nil {
+		return redis.NewDurationResult(0, err)
+	}
+	f.logf("%s %s", what, short(key))
+	e, ok := f.live(key)
+	switch {
+	case !ok:
+		return redis.NewDurationResult(-2, nil)
+	case e.exp == 0:
+		return redis.NewDurationResult(-1, nil)
+	}
+	return redis.NewDurationResult(time.Duration(e.exp/(int64(unit)/int64(time.Millisecond)))*unit, nil)
+}
+func (f *fakeRedis) ExpireTime(ctx context.Context, key string) *redis.DurationCmd {
+	return f.expireTime(ctx, "expiretime", key, time.Second)
+}
+func (f *fakeRedis) PExpireTime(ctx context.Context, key string) *redis.DurationCmd {
+	return f.expireTime(ctx, "pexpiretime", key, time.Millisecond)
+}
+
+// SET with every option go-redis' SetArgs can express: NX|XX, GET, KEEPTTL, EX|PX, EXAT
+func (f *fakeRedis) SetArgs(ctx context.Context, key string, value interface{}, a redis.SetArgs) *redis.StatusCmd {
+	f.gate(ctx)
+	f.mu.Lock()
+	defer f.mu.Unlock()
+	if err := f.refuse(ctx, "set(args)"); err != nil {
+		return redis.NewStatusResult("", err)
+	}
+	old, had := f.live(key)
+	f.logf("set %s keepttl=%v ttl=%dns exat=%v mode=%q get=%v", short(key), a.KeepTTL, int64(a.TTL), !a.ExpireAt.IsZero(), a.Mode, a.Get)
+	mode := strings.ToUpper(a.Mode)
+	blocked := mode == "NX" && had || mode == "XX" && !had
+	if !blocked {
+		e := fentry{val: str(value)}
+		if a.KeepTTL && had {
+			e.exp = old.exp
+		}
+		if !a.ExpireAt.IsZero() {
+			e.exp = a.ExpireAt.Unix() * 1000
+		}
+		if a.TTL > 0 {
+			ms, _ := pxOf(a.TTL)
+			e.exp = f.nowMs() + ms
+		}
+		f.data[key] = e
+		if e.exp != 0 && e.exp <= f.nowMs() {
+			delete(f.data, key)
+		}
+	}
+	switch {
+	case a.Get && had:
+		return redis.NewStatusResult(old.val, nil)
+	case a.Get || blocked:
+		return redis.NewStatusResult("", redis.Nil)
+	}
+	return redis.NewStatusResult("OK", nil)
+}
+
+func (f *fakeRedis) GetSet(ctx context.Context, key string, value interface{}) *redis.StringCmd {
+	f.gate(ctx)
+	f.mu.Lock()
+	defer f.mu.Unlock()
+	if err := f.refuse(ctx, "getset"); err != nil {
+		return redis.NewStringResult("", err)
+	}
+	f.logf("getset %s", short(key))
+	old, had := f.live(key)
+	f.data[key] = fentry{val: str(value)}
+	if !had {
+		return redis.NewStringResult("", redis.Nil)
+	}
+	return redis.NewStringResult(old.val, nil)
+}
+
+func (f *fakeRedis) rename(ctx context.Context, what, key, newkey string, nx bool) (bool, error) {
+	f.gate(ctx)
+	f.mu.Lock()
+	defer f.mu.Unlock()
+	if err := f.refuse(ctx, what); err != nil {
+		return false, err
+	}
+	f.logf("%s %s %s", what, short(key), short(newkey))
+	e, ok := f.live(key)
+	if !ok {
+		return false, errors.New("ERR no such key")
+	}
+	if _, had := f.live(newkey); had && nx {
+		return false, nil
+	}
+	delete(f.data, key)
+	f.data[newkey] = e
+	return true, nil
+}
+func (f *fakeRedis) Rename(ctx context.Context, key, newkey string) *redis.StatusCmd {
+	if _, err := f.rename(ctx, "rename", key, newkey, false); err != nil {
+		return redis.NewStatusResult("", err)
+	}
+	return redis.NewStatusResult("OK", nil)
+}
+func (f *fakeRedis) RenameNX(ctx context.Context, key, newkey string) *redis.BoolCmd {
+	ok, err := f.rename(ctx, "renamenx", key, newkey, true)
+	return redis.NewBoolResult(ok, err)
+}
+
+func (f *fakeRedis) Copy(ctx context.Context, src, dst string, db int, replace bool) *redis.IntCmd {
+	f.gate(ctx)
+	f.mu.Lock()
+	defer f.mu.Unlock()
+	if err := f.refuse(ctx, "copy"); err != nil {
+		return redis.NewIntResult(0, err)
+	}
+	f.logf("copy %s %s db=%d replace=%v", short(src), short(dst), db, replace)
+	if db != 0 {
+		return redis.NewIntResult(0, errors.New("ERR DB index is out of range"))
+	}
+	e, ok := f.live(src)
+	if _, had := f.live(dst); !ok || had && !replace {
+		return redis.NewIntResult(0, nil)
+	}
+	f.data[dst] = e
+	return redis.NewIntResult(1, nil)
+}
+
+func (f *fakeRedis) Touch(ctx context.Context, keys ...string) *redis.IntCmd {
+	return f.Exists(ctx, keys...)
+}
+
+func (f *fakeRedis) StrLen(ctx context.Context, key string) *redis.IntCmd {
+	f.gate(ctx)
+	f.mu.Lock()
+	defer f.mu.Unlock()
+	if err := f.refuse(ctx, "strlen"); err != nil {
+		return redis.NewIntResult(0, err)
+	}
+	f.logf("strlen %s", short(key))
+	e, _ := f.live(key)
+	return redis.NewIntResult(int64(len(e.val)), nil)
+}
+
+func (f *fakeRedis) MGet(ctx context.Context, keys ...string) *redis.SliceCmd {
+	f.gate(ctx)
+	f.mu.Lock()
+	defer f.mu.Unlock()
+	if err := f.refuse(ctx, "mget"); err != nil {
+		return redis.NewSliceResult(nil, err)
+	}
+	out := make([]interface{}, len(keys))
+	for i, k := range keys {
+		f.logf("mget %s", short(k))
+		if e, ok := f.live(k); ok {
+			out[i] = e.val
+		}
+	}
+	return redis.NewSliceResult(out, nil)
 }
 
 // ---- commands ttlrds.go does not issue today but a refactor may reasonably reach for.  They
@@ -716,33 +967,6 @@ func (f *fakeRedis) SetXX(ctx context.Context, key string, value interface{}, d 
 	return redis.NewBoolResult(true, nil)
 }
 
-func (f *fakeRedis) SetArgs(ctx context.Context, key string, value interface{}, a redis.SetArgs) *redis.StatusCmd {
-	f.gate(ctx)
-	f.mu.Lock()
-	defer f.mu.Unlock()
-	if err := f.refuse(ctx, "set(args)"); err != nil {
-		return redis.NewStatusResult("", err)
-	}
-	if !a.ExpireAt.IsZero() || a.Get {
-		tr.Fatal("fake redis: SET with EXAT/GET is not implemented")
-	}
-	old, had := f.live(key)
-	f.logf("set %s keepttl=%v ttl=%dns mode=%q", short(key), a.KeepTTL, int64(a.TTL), a.Mode)
-	if (a.Mode == "NX" || a.Mode == "nx") && had || (a.Mode == "XX" || a.Mode == "xx") && !had {
-		return redis.NewStatusResult("", redis.Nil)
-	}
-	e := fentry{val: str(value)}
-	if a.KeepTTL && had {
-		e.exp = old.exp
-	}
-	if a.TTL > 0 {
-		ms, _ := pxOf(a.TTL)
-		e.exp = f.nowMs() + ms
-	}
-	f.data[key] = e
-	return redis.NewStatusResult("OK", nil)
-}
-
 func (f *fakeRedis) Exists(ctx context.Context, keys ...string) *redis.IntCmd {
 	f.gate(ctx)
 	f.mu.Lock()
@@ -777,28 +1001,6 @@ func (f *fakeRedis) Persist(ctx context.Context, key string) *redis.BoolCmd {
 		return redis.NewBoolResult(false, nil)
 	}
 	e.exp = 0
-	f.data[key] = e
-	return redis.NewBoolResult(true, nil)
-}
-
-func (f *fakeRedis) PExpire(ctx context.Context, key string, d time.Duration) *redis.BoolCmd {
-	f.gate(ctx)
-	f.mu.Lock()
-	defer f.mu.Unlock()
-	if err := f.refuse(ctx, "pexpire"); err != nil {
-		return redis.NewBoolResult(false, err)
-	}
-	ms := formatMs(d)
-	f.logf("pexpire %s %d (dur=%dns)", short(key), ms, int64(d))
-	e, ok := f.live(key)
-	if !ok {
-		return redis.NewBoolResult(false, nil)
-	}
-	if ms <= 0 {
-		delete(f.data, key)
-		return redis.NewBoolResult(true, nil)
-	}
-	e.exp = f.nowMs() + ms
 	f.data[key] = e
 	return redis.NewBoolResult(true, nil)
 }
@@ -856,39 +1058,7 @@ func (f *fakeRedis) Keys(ctx context.Context, pattern string) *redis.StringSlice
 	return redis.NewStringSliceResult(out, nil)
 }
 
-// fakeLacks recognises, in the stack of a recovered panic, a call of a command this fake does
-// not implement (a promoted method of the nil embedded interface).  That says nothing about the
-// cache: it is a limit of the harness (exit 2), not an observation.
-func fakeLacks(stack string) string {
-	const mark = "main.(*fakeRedis)."
-	for rest := stack; ; {
-		i := strings.Index(rest, mark)
-		if i < 0 {
-			return ""
-		}
-		rest = rest[i+len(mark):]
-		j := strings.IndexAny(rest, "(.\n")
-		if j < 0 {
-			return ""
-		}
-		if name := rest[:j]; !implemented[name] {
-			return name
-		}
-	}
-}
-
-var implemented = map[string]bool{"Set": true, "SetNX": true, "Get": true, "GetDel": true, "Expire": true,
-	"Del": true, "Scan": true, "GetEx": true, "SetEx": true, "SetXX": true, "SetArgs": true, "Exists": true,
-	"Unlink": true, "Persist": true, "PExpire": true, "TTL": true, "PTTL": true, "Keys": true,
-	"refuse": true, "gate": true, "nowMs": true, "logf": true, "take": true, "live": true,
-	"scanProcess": true, "ttlOf": true}
-
-func onPanic(p interface{}) tr.E {
-	if name := fakeLacks(string(debug.Stack())); name != "" {
-		tr.Fatal("the fake redis server does not implement %s (called by the cache): extend the fake", name)
-	}
-	return rp(fmt.Sprintf("panic: %v", p), 0)
-}
+func onPanic(p interface{}) tr.E { return rp(fmt.Sprintf("panic: %v", p), 0) }
 
 // Scan pages the key space the way a server does: the cursor walks ALL keys of the database in a
 // fixed pseudo-random (hash) order, at most COUNT keys (default 10) are visited per call, MATCH
@@ -1473,7 +1643,52 @@ func genRegion(rng *rand.Rand, i, maxops int, inject bool) (int, int, int, int, 
 		}
 		acts = append(acts, act{Op: "probe", Ks: allKeys(nk)})
 	}
+	// slide: an update-ttl read with a ttl SHORTER or LONGER than what the key has left, the clock
+	// then moves past the earlier of the two deadlines, the key is read again and set-if-absent
+	slide := func() {
+		var cand []int
+		for _, k := range allKeys(nk) {
+			if r := dl[k] - now; live(k) && r >= 3 && r < 1000 {
+				cand = append(cand, k)
+			}
+		}
+		if len(cand) == 0 {
+			k := rng.Intn(nk) + 1
+			nv++
+			a := act{Op: "set", K: k, V: nv, Ht: true, TTL: 5 + rng.Intn(5)}
+			dl[k] = now + a.TTL
+			acts = append(acts, a)
+			cand = []int{k}
+		}
+		k := cand[rng.Intn(len(cand))]
+		r := dl[k] - now
+		t, d := 1+rng.Intn(r-2), 0
+		if rng.Intn(2) == 0 {
+			d = t + 1 // past the new, shorter deadline, before the old one
+		} else {
+			t, d = r+2+rng.Intn(4), r+1 // past the old deadline, before the new one
+		}
+		acts = append(acts, act{Op: "get", K: k, Upd: true, TTL: t})
+		dl[k] = now + t
+		for kk, e := range dl {
+			if live(kk) && e == now+d {
+				return
+			}
+		}
+		now += d
+		acts = append(acts, act{Op: "tick", D: d}, act{Op: "get", K: k})
+		nv++
+		a := act{Op: "set", K: k, V: nv, Ht: true, TTL: 2 + rng.Intn(6), Nx: true}
+		if !live(k) {
+			dl[k] = now + a.TTL
+		}
+		acts = append(acts, a, act{Op: "get", K: k})
+	}
 	for j := 0; j < n; j++ {
+		if rng.Intn(12) == 0 {
+			slide()
+			continue
+		}
 		k := rng.Intn(nk) + 1
 		switch x := rng.Intn(100); {
 		case x < 36:
